@@ -113,7 +113,7 @@ theorem parse_delimited_sound {α β : Type} (stop : Token) (peeks : List Token)
         (st.toks.length ≤ st1.toks.length + B → (er x, abs st1) ∈ p (abs st)))
     (fuel : Nat) (st : PState) (xs : List α) (st' : PState)
     (h : parseDelimited stop true peeks item fuel st = .ok (xs, st')) :
-    Suf st' st ∧ peekTok st' = some stop ∧ xs.length + st'.toks.length ≤ st.toks.length ∧
+    Suf st' st ∧ nextTok st' = some stop ∧ xs.length + st'.toks.length ≤ st.toks.length ∧
     (st.toks.length ≤ st'.toks.length + B →
        (xs = [] ∧ st' = st) ∨ SepBy p comma (xs.map er) (abs st) (abs st')) :=
   parseDelimited_commas_sound stop peeks item er p B hitem fuel st xs st' h
@@ -125,7 +125,7 @@ theorem parse_delimited_complete {α β : Type} (stop : Token) (peeks : List Tok
     (hitem : ∀ st a r1, (a, r1) ∈ p (abs st) →
         (r1.head? = some comma ∨ r1.head? = some (litTok stop)) →
         ∃ x st1, item st = .ok (x, st1) ∧ er x = a ∧ abs st1 = r1 ∧
-          st1.toks.length < st.toks.length ∧ peekIn st peeks = true ∧ peekTok st ≠ some stop)
+          st1.toks.length < st.toks.length ∧ peekIn st peeks = true ∧ nextTok st ≠ some stop)
     {xs : List β} {r : List STok} (st : PState) (h : SepBy p comma xs (abs st) r)
     (hr : r.head? = some (litTok stop)) (fuel : Nat)
     (hfuel : xs.length + 1 ≤ fuel ∨ st.toks.length + 1 ≤ fuel) :
